@@ -200,7 +200,7 @@ func (A *ownAnalysis) run() {
 		for fn := range A.Reqs {
 			fns = append(fns, fn)
 		}
-		sort.Slice(fns, func(i, j int) bool { return fns[i].Pos() < fns[j].Pos() })
+		sort.Slice(fns, func(i, j int) bool { return ir.PosLess(fns[i].Pos(), fns[j].Pos()) })
 		for _, fn := range fns {
 			for idx, r := range A.Reqs[fn] {
 				for _, cs := range A.rcallers[fn] {
@@ -251,7 +251,7 @@ func (A *ownAnalysis) run() {
 		}
 	}
 	sort.Slice(A.Undischarged, func(i, j int) bool {
-		return A.Undischarged[i].Call.Pos() < A.Undischarged[j].Call.Pos()
+		return ir.PosLess(A.Undischarged[i].Call.Pos(), A.Undischarged[j].Call.Pos())
 	})
 }
 
@@ -831,28 +831,58 @@ func lastSeg(s string) string {
 
 // evalUnderShared evaluates a branch condition assuming parameter p is a node
 // in shared state: shared=true, dirty=false, source≠nil (FLAGS invariant).
+//
+// Besides direct loads of p's flags the condition may be a boolean result of a
+// same-package predicate helper that is handed the very node p
+// (`_, done, _ := node.storedAs(); if done {…}`): the helper is evaluated under
+// the same valuation of the parameter that receives p — the returns of the
+// helper that stay reachable under that valuation are collected, and the
+// result is known iff every one of them yields the same known boolean at that
+// result index. This carries the valuation through the helper's result. It is
+// sound under the same premise the intraprocedural valuation already rests on
+// (the flags of p are as on entry when the test is made): a write to p's flags
+// that is reachable under the valuation — in the caller before the call, or in
+// the helper before its test — is itself an undischarged write/requirement on
+// p and is reported by OWN, so a silent verdict implies no such write exists.
+// Anything else (helper without a body, dynamic call, no reachable return,
+// returns that disagree or are not known) is "unknown": the edge stays
+// feasible and nothing is discharged.
 func evalUnderShared(cond ssa.Value, p *ssa.Parameter) (val, known bool) {
+	return evalUnderVal(cond, p, valShared, 0)
+}
+
+// nodeValuation is an assumption about the flags of one node parameter.
+type nodeValuation int
+
+const (
+	// valShared: the node is shared — shared ∧ ¬dirty ∧ source≠nil.
+	valShared nodeValuation = iota
+	// valDirty: the node is dirty — dirty ∧ ¬shared (dirty ⇒ ¬shared, FLAGS); nothing is known about source.
+	valDirty
+)
+
+func evalUnderVal(cond ssa.Value, p *ssa.Parameter, nv nodeValuation, depth int) (val, known bool) {
 	if v, ok := ir.ConstBool(cond); ok {
 		return v, true
 	}
 	switch x := cond.(type) {
 	case *ssa.UnOp:
 		if x.Op == token.NOT {
-			v, k := evalUnderShared(x.X, p)
+			v, k := evalUnderVal(x.X, p, nv, depth)
 			return !v, k
 		}
 		if x.Op == token.MUL {
 			if fa, ok := x.X.(*ssa.FieldAddr); ok && isNodePtr(fa.X.Type()) && ir.ResolveCell(fa.X) == ssa.Value(p) {
 				switch ir.FieldName(fa.X.Type(), fa.Field) {
 				case "shared":
-					return true, true
+					return nv == valShared, true
 				case "dirty":
-					return false, true
+					return nv == valDirty, true
 				}
 			}
 		}
 	case *ssa.BinOp:
-		if x.Op == token.EQL || x.Op == token.NEQ {
+		if (x.Op == token.EQL || x.Op == token.NEQ) && nv == valShared {
 			v, tnn, ok := ir.NilTest(x)
 			if ok {
 				if ld, ok := v.(*ssa.UnOp); ok && ld.Op == token.MUL {
@@ -863,15 +893,83 @@ func evalUnderShared(cond ssa.Value, p *ssa.Parameter) (val, known bool) {
 				}
 			}
 		}
+	case *ssa.Call:
+		return evalHelperUnderVal(x, 0, p, nv, depth)
+	case *ssa.Extract:
+		if call, ok := x.Tuple.(*ssa.Call); ok {
+			return evalHelperUnderVal(call, x.Index, p, nv, depth)
+		}
 	}
 	return false, false
 }
 
-func (A *ownAnalysis) unreachableUnderSharedValuation(fn *ssa.Function, p *ssa.Parameter, target *ssa.BasicBlock) bool {
-	if p.Parent() != fn || len(fn.Blocks) == 0 {
-		return false
+// helperParamFor: call is a static call of a same-package function with a
+// body, and exactly one of its arguments is the node parameter p of the calling
+// function (seen through the cell go/ssa makes for a captured parameter):
+// the callee and its parameter that receives p.
+func helperParamFor(call ssa.CallInstruction, p *ssa.Parameter) (*ssa.Function, *ssa.Parameter) {
+	com := call.Common()
+	if com.IsInvoke() {
+		return nil, nil
 	}
-	reach := ir.ReachableFrom(fn.Blocks[0], func(from, to *ssa.BasicBlock) bool {
+	callee := ir.Callee(com)
+	if callee == nil || callee.Blocks == nil || callee.Pkg == nil || p.Parent() == nil || callee.Pkg != p.Parent().Pkg {
+		return nil, nil
+	}
+	var q *ssa.Parameter
+	for i, a := range com.Args {
+		if ir.ResolveCell(a) == ssa.Value(p) && i < len(callee.Params) {
+			if q != nil {
+				return nil, nil
+			}
+			q = callee.Params[i]
+		}
+	}
+	if q == nil || !isNodePtr(q.Type()) {
+		return nil, nil
+	}
+	return callee, q
+}
+
+func evalHelperUnderVal(call *ssa.Call, idx int, p *ssa.Parameter, nv nodeValuation, depth int) (val, known bool) {
+	if depth > 3 || call.Parent() != p.Parent() {
+		return false, false
+	}
+	callee, q := helperParamFor(call, p)
+	if callee == nil {
+		return false, false
+	}
+	reach := reachUnderVal(callee, q, nv, depth+1)
+	n := 0
+	for _, b := range callee.Blocks {
+		if !reach[b] || len(b.Instrs) == 0 || ir.IsDead(b) {
+			continue
+		}
+		r, ok := b.Instrs[len(b.Instrs)-1].(*ssa.Return)
+		if !ok {
+			continue
+		}
+		if idx >= len(r.Results) {
+			return false, false
+		}
+		v, k := evalUnderVal(r.Results[idx], q, nv, depth+1)
+		if !k || (n > 0 && v != val) {
+			return false, false
+		}
+		val = v
+		n++
+	}
+	return val, n > 0
+}
+
+// reachUnderVal: the blocks of fn reachable from its entry when parameter p
+// is a node in the state nv (branches whose condition is known under the
+// valuation are followed on the feasible side only).
+func reachUnderVal(fn *ssa.Function, p *ssa.Parameter, nv nodeValuation, depth int) map[*ssa.BasicBlock]bool {
+	if len(fn.Blocks) == 0 {
+		return nil
+	}
+	return ir.ReachableFrom(fn.Blocks[0], func(from, to *ssa.BasicBlock) bool {
 		if len(from.Instrs) == 0 {
 			return false
 		}
@@ -879,7 +977,7 @@ func (A *ownAnalysis) unreachableUnderSharedValuation(fn *ssa.Function, p *ssa.P
 		if !ok {
 			return false
 		}
-		v, known := evalUnderShared(iff.Cond, p)
+		v, known := evalUnderVal(iff.Cond, p, nv, depth)
 		if !known {
 			return false
 		}
@@ -888,7 +986,13 @@ func (A *ownAnalysis) unreachableUnderSharedValuation(fn *ssa.Function, p *ssa.P
 		}
 		return to == from.Succs[0] && from.Succs[0] != from.Succs[1]
 	})
-	return !reach[target]
+}
+
+func (A *ownAnalysis) unreachableUnderSharedValuation(fn *ssa.Function, p *ssa.Parameter, target *ssa.BasicBlock) bool {
+	if p.Parent() != fn || len(fn.Blocks) == 0 {
+		return false
+	}
+	return !reachUnderVal(fn, p, valShared, 0)[target]
 }
 
 // UnreachableUnderShared is the exported form used by other rules (CLEANSKIP).
